@@ -865,16 +865,14 @@ func (si *setInterp) contribution(l *setLoop, b *ssa.BasicBlock, e ssa.Value, fr
 			if !ok || kp != pj {
 				return nil, "a membership test on the way to the insertion looks up something other than the inserted element"
 			}
-			if selfMap != nil && lk.X == selfMap {
-				continue // `x not in T` guarding `T[x] = ...`: does not change T's key set
-			}
-			if si.filledInLoop(lk.X, l) {
-				// membership in a set that this loop itself fills with the same elements: a de-duplication guard, irrelevant for
-				// the set of elements that get in (an element is refused only if it is already there)
-				if !c.Pol {
-					continue
+			if (selfMap != nil && lk.X == selfMap) || si.filledInLoop(lk.X, l) {
+				// membership in the set that is being filled (or in a set that this loop itself fills with the same elements):
+				// `x not in T` guarding the insertion is a de-duplication guard and does not change which elements get in;
+				// `x in T` guarding it means the path adds nothing that was not there already
+				if c.Pol {
+					infeasible = true
 				}
-				return nil, "an element is inserted only if it is already in a set that the same loop fills"
+				continue
 			}
 			m := si.evalMap(lk.X, fr, lk, false)
 			if !m.known() {
